@@ -108,6 +108,11 @@ pub fn gen_order(rng: &mut Rng, n: usize) -> Vec<usize> {
 
 /// a mostly-valid program: starts with a few literals, then random operations
 pub fn gen_program(rng: &mut Rng, nvars: usize, nops: usize, allow_newvar: bool) -> Program {
+    gen_program_x(rng, nvars, nops, allow_newvar, false)
+}
+
+/// `basic`: only the operations every bottom-up builder has (no new variables, model conditioning, list operations)
+pub fn gen_program_x(rng: &mut Rng, nvars: usize, nops: usize, allow_newvar: bool, basic: bool) -> Program {
     let order = gen_order(rng, nvars);
     let mut ops = Vec::new();
     let mut cur_vars = nvars;
@@ -139,6 +144,8 @@ pub fn gen_program(rng: &mut Rng, nvars: usize, nops: usize, allow_newvar: bool)
             58..=64 => Op::Iff(i, j),
             65..=76 => Op::Ite(i, j, k),
             77..=82 => Op::Cond(i, x, rng.coin()),
+            83..=85 if basic => Op::And(i, j),
+            96..=99 if basic => Op::Or(i, j),
             83..=85 => {
                 let m: Vec<Option<bool>> = (0..cur_vars)
                     .map(|_| match rng.below(4) {
